@@ -1,9 +1,9 @@
 (* C11 -- only the documented extent of caller buffers is read or written.
    Property theorems only: statement + exact + Print Assumptions. *)
 From Coq Require Import List ZArith Bool.
-From LJT Require Import model.Extent model.ExtentApi model.ExtentTmp model.ExtentRows model.ExtentHist model.ExtentLanes gen.GenAlign gen.GenTail
+From LJT Require Import model.Extent model.ExtentApi model.ExtentTmp model.ExtentRows model.ExtentHist model.ExtentLanes model.ExtentShuffle model.Extent565 gen.GenAlign gen.GenTail
   proofs.ExtentProofs proofs.ExtentYuvProofs proofs.ExtentApiProofs proofs.ExtentTmpProofs proofs.ExtentRowsProofs
-  proofs.ExtentHistProofs proofs.ExtentLanesProofs proofs.ExtentExamples.
+  proofs.ExtentHistProofs proofs.ExtentLanesProofs proofs.ExtentShuffleProofs proofs.Extent565Proofs proofs.ExtentExamples.
 Import ListNotations.
 Local Open Scope Z_scope.
 
@@ -227,6 +227,40 @@ Theorem C11_h2v2_fancy_simd_eq_c : forall V in0 in1 n,
   length (h2v2_fancy_simd V in0 in1 n) = (2 * round_up_nat n V)%nat.
 Proof. exact h2v2_fancy_simd_eq_c. Qed.
 Print Assumptions C11_h2v2_fancy_simd_eq_c.
+
+Theorem C11_h2v2_downsample_simd_eq_c : forall V row0 row1 iw oc,
+  (0 < V)%nat -> (V mod 2 = 0)%nat -> bytes row0 -> bytes row1 ->
+  firstn oc (h2v2_downsample_simd V row0 row1 iw oc) = h2v2_downsample_c row0 row1 iw oc /\
+  length (h2v2_downsample_simd V row0 row1 iw oc) = round_up_nat oc V /\
+  (forall j, (oc <= j)%nat -> rd (h2v2_downsample_simd V row0 row1 iw oc) j = 0).
+Proof. exact h2v2_downsample_simd_eq_c. Qed.
+Print Assumptions C11_h2v2_downsample_simd_eq_c.
+
+(* the byte<->word re-packing of those kernels (punpck / pack / pslldq, and on AVX2 the in-lane versions with
+   their vperm2i128 / vpermq / vpalignr fix-ups, sequences pinned by gen_Align) ARE the identity projections
+   the lane models use: position-by-position computation over the 16 / 32 byte positions *)
+Theorem C11_shuffles_are_projections : avx2_facts = true /\ sse2_facts = true.
+Proof. exact shuffles_are_projections. Qed.
+Print Assumptions C11_shuffles_are_projections.
+
+Theorem C11_avx2_pack_perm_identity : vpermq (vpackuswb (iota 0 16) (iota 16 16)) 216 = iota 0 32.
+Proof. exact avx2_pack_perm_identity. Qed.
+Print Assumptions C11_avx2_pack_perm_identity.
+
+(* RGB565 converters (jdcol565.c, all six): alignment store + pair loop + odd tail cover exactly [0, 2*width)
+   of every row of a color_convert call, whatever the alignment of each row pointer *)
+Theorem C11_rgb565_row_exact : forall width addr, 1 <= width < 2 ^ 32 ->
+  contig 0 (fst (rgb565_row width addr)) = Some (2 * width) /\
+  exact_cover (fst (rgb565_row width addr)) (2 * width) /\ rgb565_row_end width addr = 2 * width.
+Proof. exact rgb565_row_exact. Qed.
+Print Assumptions C11_rgb565_row_exact.
+
+Theorem C11_rgb565_current :
+  if rgb565_reset_per_row then (forall width addrs nc, 1 <= width < 2 ^ 32 ->
+        Forall (fun e => e = 2 * width) (rgb565_call_ends true width addrs nc))
+  else exists width addrs, 1 <= width /\ nth 1 (rgb565_call_ends false width addrs width) 0 > 2 * width.
+Proof. exact rgb565_current. Qed.
+Print Assumptions C11_rgb565_current.
 
 Theorem C11_lanes_stay_in_padded_rows : forall V n m_in m_out,
   (V = 16 \/ V = 32)%nat -> (n <= m_in)%nat -> (2 * n <= m_out)%nat ->
